@@ -39,11 +39,13 @@ KnownShape(f) == f.shape = "v1" /\ f.sv \in {"empty", "v0"}
 FileOpen(e) ==
     LET f == e.file  g == e.after
         rowsKept == SetOf(f.rows) = SetOf(g.rows) /\ Len(f.rows) = Len(g.rows)
-        b == ~Newer(f.sv) => (e.outcome = "ok" /\ e.again = "ok")       \* C18b
+        b == ~Newer(f.sv) => (e.outcome = "ok" /\ e.again = "ok" /\ e.usable = "ok"      \* C18b: opens, and serves
+                               /\ (g.sv = "v1" /\ g.shape = "v1"))                  \* (DhcpStore!VersionHonest on the real file)
         a == (f.shape # "absent") => rowsKept                               \* C18a
         d == Newer(f.sv) => (e.outcome = "err" /\ g = f)                    \* C18d
         shape == IF ~b THEN (IF KnownShape(f) THEN "openFailsAfterCrashBetweenMigrationAndVersionRow"
-                             ELSE IF e.outcome = "panic" THEN "openPanics" ELSE "openFails")
+                             ELSE IF e.outcome = "panic" THEN "openPanics"
+                             ELSE IF e.outcome = "ok" /\ e.again = "ok" THEN "openedStoreNotUsable" ELSE "openFails")
                  ELSE IF ~a THEN "rowsChangedByOpen" ELSE "newerSchemaNotRefusedUntouched"
         exp == OpenResult(f.sv, f.shape)
     IN /\ viol' = IF "C18" \in Enforce /\ ~(a /\ b /\ d) THEN viol \cup {<<"C18", l, shape>>} ELSE viol
@@ -62,14 +64,16 @@ Cmp(e) ==
        /\ stats' = [stats EXCEPT !.cmps = @ + 1, !.skewed = @ + (IF e.skew THEN 1 ELSE 0)]
        /\ UNCHANGED drift
 
+\* acked: <<address, client, E>> = "yours until E", printed after allocate_address returned
+\* present: <<address, client, start, expiry>> rows of the child's clients after the kill and reopen
 Kill(e) ==
     LET ack == SetOf(e.acked)  pres == SetOf(e.present)
-        missing == {a \in ack : ~\E p \in pres : p[1] = a[1]}
-        replaced == {a \in ack : a \notin pres}      \* overwritten by the allocation in flight at a kill
+        missing == {a \in ack : ~\E p \in pres : p[1] = a[1] /\ p[2] = a[2] /\ p[4] >= a[3] - 2}
+        torn == e.partial \/ \E p \in pres : p[4] - p[3] # 1000      \* every lease is written with start + 1000 = expiry
         b == e.outcome = "ok"
-        c == missing = {} /\ Cardinality(replaced) <= Len(e.kills) /\ ~e.partial
+        c == missing = {} /\ ~torn
         shape == IF ~b THEN (IF KnownShape(e.after) THEN "openFailsAfterCrashBetweenMigrationAndVersionRow" ELSE "openFailsAfterKill")
-                 ELSE IF missing # {} THEN "acknowledgedLeaseLost" ELSE "partialOrForeignRow"
+                 ELSE IF missing # {} THEN "acknowledgedLeaseLost" ELSE "partiallyWrittenLease"
         old == SetOf(e.before.rows) \subseteq SetOf(e.after.rows)
     IN /\ viol' = IF "C18" \in Enforce /\ ~(b /\ c /\ old)
                   THEN viol \cup {<<"C18", l, IF b /\ c THEN "oldRowsLostAcrossUpgrade" ELSE shape>>} ELSE viol
